@@ -406,7 +406,9 @@ RULE = ("a case is a driver script for the real server (datagram arrivals from 1
         "iterations, run-until-idle, virtual time advances) plus one adversary program per address (suspend / yield "
         "with or without timeout / return / raise, consumed across generator restarts); the label sequence of the "
         "model is recorded from the real run. Exhaustive: every action sequence up to length 4 (5 thorough) over "
-        "{arrive, release, idle, advance} x every program up to length 2 (3 thorough) for one address; random: 1-3 "
+        "{arrive, release, idle, advance} x every program up to length 2 (thorough: also length 4 x programs up to 3) for one address (also with the "
+        "yielding condition variable), every action sequence up to length 4 (5) over {arrive from 0, arrive from 1, "
+        "release 0, idle} x small programs for two addresses; random: 1-3 "
         "addresses, up to 6 datagrams, programs up to 6 choices, with and without a yielding condition variable. "
         "Cases whose label sequence was already produced are skipped. Non-trivial = a datagram arrived while its "
         "address had a live generator, a suspended handler or a pending task, or a restart/timeout/discard happened.")
@@ -497,6 +499,32 @@ def _exhaustive(maxact, maxprog, mode, seen):
                     yield c
 
 
+def _exhaustive2(maxact, mode, seen):
+    """two addresses: every action sequence over {arrive from 0, arrive from 1, release 0, idle} x small programs"""
+    alphabet = ("A0", "A1", "R0", "Q")
+    small = ([0], [1, -1], [2])
+    progs0 = [list(p) for n in range(3) for p in itertools.product(small, repeat=n)]
+    progs1 = [[], [[0]], [[2]]]
+    for n in range(1, maxact + 1):
+        for seq in itertools.product(alphabet, repeat=n):
+            if "A0" not in seq:
+                continue
+            actions, k = [], 0
+            for x in seq:
+                if x[0] == "A":
+                    actions.append([0, int(x[1]), bytes([97 + k])])
+                    k += 1
+                elif x == "R0":
+                    actions.append([1, 0])
+                else:
+                    actions.append([3])
+            for p0 in progs0:
+                for p1 in progs1:
+                    c = _case(2, [[list(ch) for ch in p0], [list(ch) for ch in p1]], actions, mode, seen, ["exhaustive2"])
+                    if c:
+                        yield c
+
+
 def _random_case(rng, seen, thorough):
     naddr = rng.choice([1, 2, 2, 3, 3])
     ndg = rng.randint(1, 6)
@@ -527,8 +555,13 @@ def _random_case(rng, seen, thorough):
 def cases(tier, rng, escalate):
     thorough = tier == "thorough" or escalate
     seen = set()
-    yield from _exhaustive(5 if thorough else 4, 3 if thorough else 2, [0], seen)
-    yield from _exhaustive(4 if thorough else 3, 2, [1], seen)
+    yield from _exhaustive(5 if thorough else 4, 2, [0], seen)
+    if thorough:
+        yield from _exhaustive(4, 3, [0], seen)
+    yield from _exhaustive(4, 2, [1], seen)
+    yield from _exhaustive2(5 if thorough else 4, [0], seen)
+    if thorough:
+        yield from _exhaustive2(4, [1], seen)
     n = 12000 if thorough else 2500
     for _ in range(n):
         c = _random_case(rng, seen, thorough)
